@@ -164,6 +164,12 @@ impl EventGen for Container {
 
                 if self.0.name == "defs" || self.0.name == "symbol" {
                     bbox = None;
+                } else if let ("svg" | "foreignObject", Some(own_bbox)) =
+                    (self.0.name.as_str(), new_el.bbox()?)
+                {
+                    // these establish their own viewport: their extent is given by their
+                    // x / y / width / height rather than by what they contain.
+                    bbox = Some(own_bbox);
                 } else if bbox.is_some() {
                     new_el.content_bbox = bbox;
                     context.update_element(&new_el);
